@@ -124,9 +124,65 @@ def _replaces_in_helper(idx, f, call: ast.Call, P: str) -> bool:
     return bool(rets) and all(replaces(r) or hcfg.must_pass_through(hcfg.entry.id, r.id, replaces) for r in rets)
 
 
+def _import_filter_folder_rule(ctx, res) -> None:
+    """R05.17: while tidying the imports of a module after a move, "does this from-import import the source module" is
+    decided by resolving the (possibly relative) import against a folder.  That folder is the folder of the module whose
+    imports are being organised -- the resource the organised pymodule was built for -- not of some other module at hand."""
+    idx = ctx.idx
+    n = 0
+    for f in sorted(idx.functions.values(), key=lambda f: f.qualname):
+        if f.unit.modname != "rope.refactor.move":
+            continue
+        for c in calls_in(f.node):
+            if call_name(c) != "organize_imports" or not c.args:
+                continue
+            flt = next((k.value for k in c.keywords if k.arg == "import_filter"), None)
+            if not (isinstance(flt, ast.Call) and call_name(flt) == "_import_filter_in" and flt.args):
+                continue
+            n += 1
+            folder = flt.args[0]
+            subject = folder.value if isinstance(folder, ast.Attribute) and folder.attr == "parent" else None
+
+            def resources_of(e, depth=0, before=c.lineno):
+                """the resource(s) the module expression e was built for"""
+                if depth > 6:
+                    return set()
+                if isinstance(e, ast.Call):
+                    nm = call_name(e)
+                    if nm == "get_pymodule" and e.args:
+                        return {norm(e.args[0])}
+                    if nm == "get_string_module" and len(e.args) >= 3:
+                        return {norm(e.args[2])}
+                    if nm == "new_pymodule" and e.args:
+                        return resources_of(e.args[0], depth + 1, e.lineno)
+                    return set()
+                if isinstance(e, ast.Name):
+                    out = set()
+                    for x in walk_local(f.node):
+                        if isinstance(x, ast.Assign) and x.lineno < before and any(isinstance(t, ast.Name) and t.id == e.id for t in x.targets):
+                            out |= resources_of(x.value, depth + 1, x.lineno)
+                    return out
+                return set()
+
+            rs = resources_of(c.args[0])
+            if subject is None or not rs:
+                res.undecided("R05.17", f"{_short(f)}|filter-folder#{n}", f"{f.unit.rel}:{c.lineno}",
+                              f"folder `{ast.unparse(folder)}` / resource of the organised module not recognised")
+                continue
+            ok = norm(subject) in rs
+            res.add("R05.17", f"{_short(f)}|filter-folder#{n}", ok, f"{f.unit.rel}:{flt.lineno}",
+                    f"relative imports of the organised module are resolved against its own folder ({ast.unparse(folder)})" if ok else
+                    f"the imports of a module built for another resource than `{ast.unparse(subject)}` are filtered with the folder "
+                    f"`{ast.unparse(folder)}`: a relative `from .src import f` in that module is resolved against another package, is not recognised as an "
+                    "import of the source module, and the stale import stays next to the new one (ImportError when the module is imported)",
+                    function=f.qualname)
+    res.floor("R05.17", "organize_imports calls with a folder-bound import filter", n, 2)
+
+
 def check(ctx, res) -> None:
     _check_main(ctx, res)
     _shared(ctx, res)
+    _import_filter_folder_rule(ctx, res)
 
 
 def _check_main(ctx, res) -> None:
